@@ -15,7 +15,7 @@ RULE = ('rate arrays: ALL arrays of length <=4 (thorough 5) over {0,0.1,0.2,0.3,
         'every interval midpoint, 1-2^-53}, injected through random_numbers into the public S/M/CL tests (2x2 rate arrays also in column-major and transposed-view memory layouts); L-test under a '
         'scripted numpy.random (every Poisson answer 0..3 x every uniform tuple); binary S / binary CL / Brier '
         'rejection loops under EVERY uniform script of length <=3 (thorough 4; one less when the draw alphabet exceeds 8 letters, 1 when it exceeds 14) over the unambiguous draws; seeds '
-        '{0,1,2,12345,2^32-1} x num_simulations {1,2,7} for all nine simulation-based tests. A (rates, draws) pair is '
+        '{0,1,2,12345,2^32-1} x num_simulations {1,2,7} for all nine simulation-based tests; structured large arrays (50..2000 bins, one draw per bin). A (rates, draws) pair is '
         'non-trivial iff the array has a zero-rate bin, or a draw is a boundary/neighbour/0/top value; distinct by '
         'construction.')
 ASSUMPTIONS = ['simulated arrays are observed by wrapping the three modules\' _simulate_catalog (harness-side attribute '
@@ -58,6 +58,10 @@ def cases(tier, seed):
     bin_arrays += [[0.1] * 10, [0.1] * 10 + [0.0], [0.0] + [0.7] * 3]
     for chunk in space.chunks(bin_arrays, 3):
         yield dict(kind='binary', arrays=chunk, L=3 if tier == 'quick' else 4)
+    # structured LARGE arrays (size-dependent paths): 50..2000 bins, one draw per bin midpoint plus 0 and the top double
+    for n in (50, 257, 1024, 2000):
+        for pattern in range(3):
+            yield dict(kind='large', n=n, pattern=pattern)
     for s in SEEDS:
         yield dict(kind='seed', seed=s)
     yield dict(kind='inject_multi')
@@ -521,13 +525,69 @@ def run_inject_multi(case, failures, hsh):
     return evals, evals, evals
 
 
+def run_large(case, failures, hsh):
+    from csep.core import poisson_evaluations as pe, binomial_evaluations as be, brier_evaluations as br
+    n, pat = case['n'], case['pattern']
+    rates = [[0.1, 1e-3 * (1 + i % 17), (0.0 if i % 5 == 2 else 10.0 ** (-6 + i % 9))][pat] for i in range(n)]
+    F = rs.exact_cdf(rates)
+    draws = [0.0] + rs.midpoints(rates) + [1.0 - 2.0 ** -53]
+    want = [0] * n
+    for u in draws:
+        b = rs.allowed_bins(u, F, rates)
+        want[b[0] if len(b) == 1 else rs.strict_bin(u, F, rates)] += 1
+    evals = 0
+    rep = dict(case)
+    for test in ('S', 'M'):
+        fc, cat = setup(rates, test, len(draws))
+        site = f'poisson_evaluations.{public(test).__name__}'
+        try:
+            with Spy(pe) as spy:
+                res = public(test)(fc, cat, num_simulations=2, random_numbers=numpy.array([draws, draws[::-1]], dtype=float))
+        except Exception as e:
+            failures.append(Fail(f'{site}|{type(e).__name__}|large-array', f'{type(e).__name__}: {e} n={n} pattern={pat}', rep))
+            continue
+        evals += 2
+        for call in spy.calls:
+            out = [int(x) for x in call['out']]
+            hsh.update(repr(out).encode())
+            if sum(out) != len(draws):
+                failures.append(Fail(f'{site}|wrong-event-count|large-array', f'{sum(out)} events for {len(draws)} draws (n={n})', rep))
+            elif any(o > 0 and r <= 0 for o, r in zip(out, rates)):
+                failures.append(Fail(f'{site}|event-in-zero-rate-bin|large-array', f'n={n} pattern={pat}', rep))
+            elif out != want:
+                bad = [i for i in range(n) if out[i] != want[i]][:5]
+                failures.append(Fail(f'{site}|draw-placed-outside-its-cumulative-interval|large-array', f'n={n} pattern={pat}: bins {bad} hold {[out[i] for i in bad]} expected {[want[i] for i in bad]}', rep))
+        check_quantile(res, failures, site, rep)
+    # binary / Brier rejection loop on the same array: N = 5 active cells, scripted uniforms (duplicates force rejections)
+    mids = rs.midpoints(rates)
+    script = [mids[0], mids[0], mids[1], mids[0], mids[len(mids) // 2], mids[1], mids[-1], mids[-1], mids[3]] + mids[:8]
+    wantb, used, active = ref_rejection(script, rates, 5)
+    for test, mod in (('bS', be), ('Br', br)):
+        reg, origins, mags = fixtures.grid_setup(n, 1)
+        fc = fixtures.gridded_forecast(numpy.array(rates, dtype=float).reshape(n, 1), reg, mags)
+        counts = numpy.zeros(n, dtype=int)
+        counts[[i for i, r in enumerate(rates) if r > 0][:5]] = 1
+        cat = fixtures.catalog(fixtures.events_from_counts(counts.reshape(n, 1), origins, mags), region=reg)
+        site = f'{mod.__name__.split(".")[-1]}.{public(test).__name__}'
+        try:
+            with env.scripted_random(env.Script(uniforms=script)), Spy(mod) as spy:
+                res = public(test)(fc, cat, num_simulations=1, seed=None)
+            evals += 1
+            out = [float(x) for x in spy.calls[0]['out']]
+            if out != [float(x) for x in wantb]:
+                failures.append(Fail(f'{site}|draw-placed-outside-its-cumulative-interval|large-array', f'n={n} pattern={pat}: active {[i for i, x in enumerate(out) if x]} expected {[i for i, x in enumerate(wantb) if x]}', rep))
+        except Exception as e:
+            failures.append(Fail(f'{site}|{type(e).__name__}|large-array', f'{type(e).__name__}: {e} n={n} pattern={pat}', rep))
+    return evals, evals, 1
+
+
 def run_case(case):
     failures = []
     hsh = hashlib.sha1()
     numpy.random.seed(13579)
     k = case['kind']
     fn = {'inject': run_inject, 'inject1': run_inject1, 'ltest': run_ltest, 'ltest1': lambda c, f, h: run_ltest(dict(arrays=[c['rates']]), f, h),
-          'binary': run_binary, 'binary1': run_binary1, 'seed': run_seed, 'inject_multi': run_inject_multi}[k]
+          'binary': run_binary, 'binary1': run_binary1, 'seed': run_seed, 'inject_multi': run_inject_multi, 'large': run_large}[k]
     evals, nontriv, states = fn(case, failures, hsh)
     seen, uniq = set(), []
     for f in failures:
